@@ -676,6 +676,25 @@ def r23model(ctx: Ctx) -> RuleReport:
             for i_, e_ in enumerate(n_.targets[0].elts):
                 if isinstance(e_, ast.Name):
                     grp_alias[e_.id] = ast.parse(f'{norm(n_.value.func.value)}.group({i_ + 1})', mode='eval').body
+        # a, b = <match>.group('name', 'index') / .group(1, 2): named groups are numbered by the pattern (folded from the source, compiled by the stdlib)
+        if isinstance(n_, ast.Assign) and isinstance(n_.targets[0], ast.Tuple) and isinstance(n_.value, ast.Call) and isinstance(n_.value.func, ast.Attribute) \
+                and n_.value.func.attr == 'group' and len(n_.value.args) == len(n_.targets[0].elts) >= 2:
+            gi_ = {}
+            for c_ in walk_local(an.node):
+                if isinstance(c_, ast.Call) and isinstance(c_.func, ast.Attribute) and c_.func.attr in ('match', 'fullmatch', 'search') and norm(c_.func.value) == 're' and c_.args:
+                    okp_, pv_ = try_fold(c_.args[0], {}, repo, an.module)
+                    if okp_ and isinstance(pv_, str):
+                        try:
+                            import re as _re23
+                            gi_ = dict(_re23.compile(pv_).groupindex)
+                        except Exception:
+                            gi_ = {}
+            for a_, e_ in zip(n_.value.args, n_.targets[0].elts):
+                okg_, gv_ = try_fold(a_)
+                if okg_ and isinstance(gv_, str):
+                    gv_ = gi_.get(gv_)
+                if okg_ and isinstance(gv_, int) and isinstance(e_, ast.Name):
+                    grp_alias[e_.id] = ast.parse(f'{norm(n_.value.func.value)}.group({gv_})', mode='eval').body
 
     class _G(ast.NodeTransformer):
         def visit_Name(self, n_):
